@@ -479,6 +479,9 @@ func (c *Catalog) AddType(
 	case notation.SchemaNotationJSight:
 		s, _ := coreUserTypes.Get(name)
 		es := newExchangeJSightSchema(s.(*jschema.JSchema))
+		if astDepthExceeds(&es.JSchema.ASTNode, maxSchemaDepth) {
+			return d.KeywordError(jerr.SchemaIsTooDeep)
+		}
 		es.catalogUserTypes = c.UserTypes
 		userType.Schema = es
 	case notation.SchemaNotationRegex:
